@@ -312,6 +312,20 @@ def e2e_cases(pid, tier, rng):
             case = Case({name: lay.data}, ["--color", "never", "--blocksz", str(Bx), name], lay.printed(),
                         note={"blocksz": Bx, "container": "plain", "file": name}, timeout=60)
             cases.append((case, lay, Bx, "plain"))
+    # a file that holds ONE message and does not end with a newline (one line; a head line and continuation lines): the
+    # newline is supplied
+    for oi, (body, Bs) in enumerate([(b"2024-01-01T00:00:01 only message", [64, 66, 256, 65535]),
+                                     (b"2024-01-01T00:00:01 only message\n  with a second line\n  and a third", [64, 66, 256, 65535]),
+                                     (b"2024-01-01T00:00:01 only " + b"o" * 200, [64, 100, 4096])]):
+        lines_ = [x + b"\n" for x in body.split(b"\n")]
+        lines_[-1] = lines_[-1][:-1]
+        lay = textgen.Layout(lines_, [True] + [False] * (len(lines_) - 1))
+        lay.tslen = 19
+        for Bx in Bs:
+            name = "one%d.log" % oi
+            case = Case({name: lay.data}, ["--color", "never", "--blocksz", str(Bx), name], lay.printed(),
+                        note={"blocksz": Bx, "container": "plain", "file": name}, timeout=60)
+            cases.append((case, lay, Bx, "plain"))
     # a message over several blocks whose last newline is the first byte of a block, short messages behind it in that block:
     # plain and streamed
     for B in ([256, 1024] if tier == "quick" else [128, 256, 512, 1024, 4096]):
